@@ -37,6 +37,15 @@ def _reader_table():
     return t
 
 
+SWEEP_OK = {"used_streams", "running_streams_count", "into_iter", "iter", "next", "wake_stream", "deref", "as_ref", "clone", "as_slice", "get_unchecked", "get", "index", "len"}
+
+def _wake_sweep_only(fx, body):
+    """the function (closures included) calls nothing but the live-list accessor, iterator plumbing and wake_stream"""
+    fam = [body.f] + [f for f in fx.fns if f["key"].startswith(body.f["key"] + "::{closure#")]
+    names = [blk["term"][1].get("fname") for f in fam for blk in f["blocks"] if blk["term"][0] == "Call"]
+    return "wake_stream" in names and all(n in SWEEP_OK for n in names)
+
+
 def check(ctx):
     fx = ctx.fx
     eng = ts.Engine(fx)
@@ -92,6 +101,8 @@ def check(ctx):
         site = body.loc(b) if b else f"{body.f['file']}:{body.f['line']}"
         if holds:
             ctx.ob("R17.1", f"{k}|reads-live-list-under-streams_lock", True, site, "reader holds streams_lock")
+        elif cls is None and _wake_sweep_only(fx, body):
+            ctx.ob("R17.1", f"{k}|benign-reader", True, site, "unsynchronised reader that only wakes the listed streams (no publication, no queue access): a missed or extra wake is repeated by the next send / flush", nontrivial=False)
         elif cls is None:
             ctx.ob("R17.1", f"{k}|unreviewed-reader-of-live-list", False, site,
                    "reads the live-listener list without streams_lock and is not in the table of reviewed readers: the list is rewritten in place by listener creation / removal")
